@@ -11,7 +11,7 @@
 (***************************************************************************)
 EXTENDS Palette, Json
 
-CONSTANT Reps, MaxSteps
+CONSTANT Reps, MaxSteps, PropId, SmallLimit
 
 (* wrap steps by the kind of item they take and produce: "any" | "sig" | "recip" *)
 StepsOf == << <<"arr", "any", "any">>, <<"indef-arr", "any", "any">>, <<"map-val", "any", "any">>, <<"map-key", "any", "any">>,
@@ -53,7 +53,12 @@ OuterKind == StepsOf[st.steps[Len(st.steps)]][3]
 RECURSIVE Build(_, _)
 Build(j, x) == IF j > Len(st.steps) THEN x ELSE Build(j + 1, RepB(StepsOf[st.steps[j]][1], st.reps[j], x))
 BytesOfRecipe == Build(1, BaseB(InnerKind))
-Small == \A j \in 1..Len(st.reps) : st.reps[j] <= 3
+Small == \A j \in 1..Len(st.reps) : st.reps[j] <= SmallLimit
+(* plain CBOR nesting below the parser's limit is accepted as a Value, and a chain of well-formed recipients as a recipient *)
+InvDeepAccepted == Go /\ Small /\ Len(st.steps) = 1 =>
+  /\ StepsOf[st.steps[1]][1] \in {"arr", "map-val", "tag", "indef-arr"} => FromSlice("Value", "", BytesOfRecipe).ok
+  /\ StepsOf[st.steps[1]][1] = "recip" => FromSlice("CoseRecipient", "", BytesOfRecipe).ok
+  /\ StepsOf[st.steps[1]][1] \in {"cs-unprot", "cs-prot", "cs-prot-arr"} => FromSlice("CoseSignature", "", BytesOfRecipe).ok
 (* the recipe denotes one complete CBOR item (Parse is the specification's reading of it) *)
 InvRecipeParses == Go /\ Small => LET r == ReadToValue(BytesOfRecipe) IN r.ok
 (* the Design decoders return on it: with either "ok" or "err" -- never anything else *)
@@ -62,7 +67,9 @@ EntryTypes == CASE OuterKind = "any" -> <<"Value", "Header", "CoseKey", "CoseKey
                 [] OuterKind = "recip" -> <<"CoseRecipient", "Value">>
 InvReturns == Go /\ Small => \A t \in 1..Len(EntryTypes) : LET r == FromSlice(EntryTypes[t], "", BytesOfRecipe) IN r.ok \/ r.err # ""
 
-Emit == Go => PrintT(ToJson([kind |-> "recipe", props |-> <<"C01">>, base |-> InnerKind, outer |-> OuterKind,
+(* for recipes the specification can still evaluate: does each entry point accept the item? (nesting below ciborium's 256) *)
+Accepts == [t \in 1..Len(EntryTypes) |-> FromSlice(EntryTypes[t], "", BytesOfRecipe).ok]
+Emit == Go => PrintT(ToJson([kind |-> "recipe", props |-> <<PropId>>, accept |-> IF Small THEN Accepts ELSE <<>>, base |-> InnerKind, outer |-> OuterKind,
                              steps |-> [j \in 1..Len(st.steps) |-> StepsOf[st.steps[j]][1]], reps |-> st.reps,
                              bytes |-> IF Small THEN <<BytesOfRecipe>> ELSE <<>>,
                              entry |-> EntryTypes,
